@@ -159,3 +159,14 @@ Proof.
             rewrite gen_pc_append_colon, gen_pc_append_comma; reflexivity
           | rewrite GenColorP.gen_echo_color, gen_pc_append_byte; reflexivity ] ].
 Qed.
+
+(* ---- Entry.printLoggerName ---- *)
+Lemma gen_print_logger_name fa fw name pc noColor json buf :
+  Layout.print_logger_name fa fw name pc noColor json buf = print_logger_name_ref fa fw name noColor json buf.
+Proof.
+  first [ reflexivity
+        | unfold Layout.print_logger_name, print_logger_name_ref; destruct name as [|c t];
+          [ reflexivity
+          | replace (bytes_eqb (c :: t) []) with false by reflexivity; cbn [negb]; destruct noColor;
+            [ rewrite gen_pc_append_comma | rewrite gen_pc_append_byte ]; reflexivity ] ].
+Qed.
